@@ -134,9 +134,18 @@ func (sliceNothing) Slice(b buffer.Buffer, child digest.Digest) (buffer.Buffer, 
 var faultCodes = []codes.Code{codes.Unavailable, codes.Internal, codes.DeadlineExceeded}
 
 // setFault arms f to fail exactly its next-plus-skip call (seen = number
-// of calls f received so far) and nothing else.
-func setFault(f *backends.Faulty, seen, skip int, code codes.Code) {
-	f.Script = map[int]backends.Fault{seen + skip: {Code: code}}
+// of calls f received so far) and, with burst > 0, the burst calls after it; nothing else.
+func setFault(f *backends.Faulty, seen, skip int, code codes.Code, burst int) {
+	f.Script = map[int]backends.Fault{}
+	for i := 0; i <= burst; i++ {
+		f.Script[seen+skip+i] = backends.Fault{Code: code}
+	}
+}
+
+// drawBurst: in 1 case of 4 the one or two calls that follow the failing
+// one (a repetition of it, for instance) fail as well.
+func drawBurst(t *rapid.T) int {
+	return rapid.SampledFrom([]int{0, 0, 0, 0, 0, 0, 1, 2}).Draw(t, "faultburst")
 }
 
 func clearFault(f *backends.Faulty) { f.Script = map[int]backends.Fault{} }
